@@ -10,11 +10,13 @@ Definition sat_mul (x y : Z) : Z := Z.min i64_max (x * y).   (* on non-negative 
 
 Inductive setop := SUnion | SExcept | SIntersect.
 
+Inductive jkind := JInner | JLeft | JRight | JFull | JCross.
+
 Inductive rel :=
 | RTable (size : Z * Z)
 | RMap (limit offset : option Z) (input : rel)
-| RReduce (input : rel)
-| RJoin (unique_key : bool) (left right : rel)     (* a join key carries a unique flag *)
+| RReduce (grouped : bool) (input : rel)            (* has grouping keys *)
+| RJoin (k : jkind) (uleft uright : bool) (left right : rel)   (* the join key carries a unique flag on that side *)
 | RSet (op : setop) (left right : rel).
 
 Fixpoint size_of (r : rel) : Z * Z :=
@@ -24,10 +26,14 @@ Fixpoint size_of (r : rel) : Z * Z :=
       let mx := snd (size_of i) in
       let mx := match offset with Some o => Z.max 0 (mx - o) | None => mx end in
       (0, match limit with Some l => Z.min l mx | None => mx end)
-  | RReduce i => (0, snd (size_of i))
-  | RJoin u l r =>
+  | RReduce g i => (0, if g then snd (size_of i) else Z.max 1 (snd (size_of i)))
+  | RJoin k ul ur l r =>
       let a := snd (size_of l) in let b := snd (size_of r) in
-      (0, if u then Z.max a b else sat_mul a b)
+      (* a unique flag: max of the two sides; otherwise the product, or the rows an outer join
+         preserves when they have no match *)
+      (0, if ul || ur then Z.max a b
+          else Z.max (sat_mul a b)
+                 match k with JLeft => a | JRight => b | JFull => sat_add a b | JInner | JCross => 0 end)
   | RSet SUnion l r => (0, sat_add (snd (size_of l)) (snd (size_of r)))
   | RSet SExcept l r => (0, snd (size_of l))
   | RSet SIntersect l r => (0, Z.min (snd (size_of l)) (snd (size_of r)))
@@ -37,13 +43,11 @@ Fixpoint size_of (r : rel) : Z * Z :=
 Fixpoint sizes (r : rel) : list (Z * Z) :=
   size_of r :: match r with
                | RTable _ => []
-               | RMap _ _ i | RReduce i => sizes i
-               | RJoin _ l r' | RSet _ l r' => sizes l ++ sizes r'
+               | RMap _ _ i | RReduce _ i => sizes i
+               | RJoin _ _ _ l r' | RSet _ l r' => sizes l ++ sizes r'
                end.
 
 (* ---------- what executions can return ---------- *)
-Inductive jkind := JInner | JLeft | JRight | JFull | JCross.
-
 (* a relation with the facts the cardinality depends on: join kind and on which side the join key is
    unique, whether a reduce has grouping keys *)
 Inductive erel :=
@@ -57,8 +61,8 @@ Fixpoint skeleton (e : erel) : rel :=
   match e with
   | ETable s => RTable s
   | EMap l o i => RMap l o (skeleton i)
-  | EReduce _ i => RReduce (skeleton i)
-  | EJoin _ ul ur l r => RJoin (ul || ur) (skeleton l) (skeleton r)
+  | EReduce g i => RReduce g (skeleton i)
+  | EJoin k ul ur l r => RJoin k ul ur (skeleton l) (skeleton r)
   | ESet op _ l r => RSet op (skeleton l) (skeleton r)
   end.
 
@@ -82,8 +86,9 @@ Inductive card : erel -> Z -> Prop :=
     match op with SUnion => m <= a + b | SExcept => m <= a | SIntersect => m <= a /\ m <= b end ->
     card (ESet op all l r) m.
 
-(* the shapes for which Join::size is sound: a unique flag only on inner joins (or a flag on the
-   side that an outer join does not preserve) *)
+(* the shapes for which Join::size is sound: on an outer join a unique flag helps only when every
+   preserved row has at most one match, i.e. when it sits on the side the join does not preserve
+   (the pinned test test_build_join_with_unique_constraint fixes max(left, right) for the others) *)
 Fixpoint join_ok (e : erel) : bool :=
   match e with
   | ETable _ => true
@@ -91,22 +96,11 @@ Fixpoint join_ok (e : erel) : bool :=
   | EJoin k ul ur l r =>
       match k with
       | JInner | JCross => true
-      (* left rows preserved: each matches at most one right row, or the product bound applies and the
-         other side may hold a row (an outer join with an empty table returns the preserved rows) *)
-      | JLeft => ur || (negb ul && (1 <=? snd (size_of (skeleton r))))
-      | JRight => ul || (negb ur && (1 <=? snd (size_of (skeleton l))))
-      | JFull => negb (ul || ur) && (2 <=? snd (size_of (skeleton l))) && (2 <=? snd (size_of (skeleton r)))
+      | JLeft => ur || negb ul
+      | JRight => ul || negb ur
+      | JFull => negb (ul || ur)
       end && join_ok l && join_ok r
   | ESet _ _ l r => join_ok l && join_ok r
-  end.
-
-(* an aggregation without GROUP BY returns one row even on an empty input *)
-Fixpoint reduce_ok (e : erel) : bool :=
-  match e with
-  | ETable _ => true
-  | EMap _ _ i => reduce_ok i
-  | EReduce g i => (g || (1 <=? snd (size_of (skeleton i)))) && reduce_ok i
-  | EJoin _ _ _ l r | ESet _ _ l r => reduce_ok l && reduce_ok r
   end.
 
 Fixpoint sizes_ok (e : erel) : bool :=
@@ -115,4 +109,13 @@ Fixpoint sizes_ok (e : erel) : bool :=
   | EMap l o i => sizes_ok i && match o with Some x => 0 <=? x | None => true end && match l with Some x => 0 <=? x | None => true end
   | EReduce _ i => sizes_ok i
   | EJoin _ _ _ l r | ESet _ _ l r => sizes_ok l && sizes_ok r
+  end.
+
+(* no join key carries a unique flag *)
+Fixpoint no_flags (e : erel) : bool :=
+  match e with
+  | ETable _ => true
+  | EMap _ _ i | EReduce _ i => no_flags i
+  | EJoin _ ul ur l r => negb (ul || ur) && no_flags l && no_flags r
+  | ESet _ _ l r => no_flags l && no_flags r
   end.
